@@ -159,6 +159,56 @@ def faults(ch, ctx, lang, mark, steps=5, twin=False, control=None, order=False):
     return s
 
 
+def faults_pending(ch, ctx, lang, mark, twin=False):
+    """A5 variant: t1 reports pending (the workflow rests paused), the workflow may be canceled
+    meanwhile, then the answer arrives and the faulty transition of t1 is evaluated."""
+    from orquesta import events
+
+    wf = get_def(lang)
+    FAULT.update(mark=mark, kind=0, nth=0, seen=0, fired=False, lang=lang)
+    env = Env(ch, wf, "C11", monitors=[C11Contained()], policy=Policy(steps=3, order=False))
+    env.counters = ctx["counters"]
+    expr_base.evaluate = faulty
+    try:
+        env.start()
+        if env.inflight:
+            act = env.inflight.pop(0)
+            env.log.append("~%s:pending" % act.label())
+            env._update(act.task, act.route, events.ActionExecutionEvent(S.PENDING), ["action", S.PENDING])
+            if ch.flag("cancel_while_pending"):
+                env.request(S.CANCELING)
+                env.offers()
+            elif ch.flag("pause_requested_while_pending"):
+                env.try_request(S.PAUSING)
+            env.inflight.append(act)
+            env.log.append("(answer)")
+            env.report(0, S.SUCCEEDED, None)
+            env.offers()
+            if env.status() == S.PAUSED and not env.cancel_req:
+                env.request(S.RESUMING)
+                env.offers()
+            while env.inflight and env.step < 4:
+                a2 = env.inflight[0]
+                env.report(0, S.SUCCEEDED, env.policy.item_value(a2.item) if a2.item is not None else None)
+                env.step += 1
+                env.offers()
+            env.render_output()
+    except Violation as v:
+        v.definition = wf.id
+        v.log = list(env.log)
+        v.calls = list(env.calls)
+        raise
+    finally:
+        expr_base.evaluate = _real
+    if twin:
+        v = Violation("C11", "reachability-twin", "end reached", {})
+        v.definition = wf.id
+        raise v
+    s = env.summary()
+    s["fault"] = dict(FAULT)
+    return s
+
+
 def fault_model(ch, ctx):
     """Native validation of the fault model: what the real evaluators raise for the four
     documented failure kinds is an ExpressionEvaluationException (what kind 0 injects)."""
@@ -189,6 +239,11 @@ def obligations(tier):
             if tier == "thorough":
                 params.update(steps=7, control="either", order=True)
             o = ob("C11", "e2c.%s.%s" % (lang, m), "vt.harness.C11:faults", params, timeout=600 if tier == "quick" else 3600)
+            o["antecedents"] = ["c11_fault_fired"]
+            obs.append(o)
+    for lang in ("yaql", "jinja"):
+        for m in ("M_when", "M_pub"):
+            o = ob("C11", "e2c.pending.%s.%s" % (lang, m), "vt.harness.C11:faults_pending", {"lang": lang, "mark": m}, timeout=600)
             o["antecedents"] = ["c11_fault_fired"]
             obs.append(o)
     obs.append(ob("C11", "model", "vt.harness.C11:fault_model", {}, timeout=60))
